@@ -341,6 +341,10 @@ func shrinkCase(prop string, c *Case, rule string) *Case {
 				continue
 			}
 			f := cur.Fns[id]
+			if f.Pool > 0 {
+				// a declared pool function has the signature it was compiled with
+				continue
+			}
 			for pi := len(f.Params) - 1; pi >= 0 && budget > 0; pi-- {
 				t := cur.Clone()
 				tf := t.Fns[id]
